@@ -52,6 +52,14 @@ pub fn run(ctx: &Ctx) -> i32 {
 }
 
 pub fn replay_case(prop: &str, suite: &str, case: &Value) -> Option<Verdict> {
+    if case["kind"] == "only_item" {
+        // re-run one item of an exhaustive suite in this process (it may kill it: that is the finding)
+        std::env::set_var("VERIF_ONLY_ITEM", format!("{}:{}", case["suite"].as_str()?, case["item"].as_u64()?));
+        let tier = if case["tier"].as_str() == Some("thorough") { Tier::Thorough } else { Tier::Quick };
+        let ctx = Ctx::new(prop, tier, case["seed"].as_u64().unwrap_or(1));
+        let code = run(&ctx);
+        return Some(if code == 1 { Verdict::fail("the item fails (see the lines above)") } else { Verdict::pass(true, 0) });
+    }
     match prop {
         "C01" => c01::replay(suite, case),
         "C02" => c02::replay(suite, case),
